@@ -1,12 +1,20 @@
-"""C03 — least-loaded dispatch: real HeapBalancerSink vs Model/Heap.lean, spec `specC03`."""
+"""C03 — least-loaded dispatch.
+component heap3:     real HeapBalancerSink vs Model/Heap.lean, spec `specC03` (Adapter/Heap.lean);
+component aperture3: real ApertureBalancerSink / HeapBalancerSink behind base.py's gate (they inherit __Get) vs
+                     Model/LBBase.lean over Model/Aperture.lean over Model/Heap.lean, spec `specC03A`
+                     (Adapter/ApertureHeap.lean): the dispatch goes to a least-loaded open member of the aperture.
+Every case names its own component."""
 import heaprun
+import lbrun
 
 PROPERTY = 'C03'
 COMPONENT = 'heap3'
-QUICK = dict(gen=800)
-THOROUGH = dict(gen=20000)
-TRUSTED = ['harness channels/server set standing for the next sinks (harness/mocks.py)',
-           'random.randint drawn by __Put is recorded from the run and passed to the model']
+QUICK = dict(gen=1100)
+THOROUGH = dict(gen=26000)
+TRUSTED = ['harness channels/server set standing for the next sinks (harness/mocks.py, harness/lbrun.py)',
+           'random.randint drawn by __Put is recorded from the run and passed to the model',
+           'aperture3: random.shuffle / random.choice results are recorded from the run and passed to the model; '
+           'EMA values are taken from the real Ema.Update as exact rationals']
 SOURCE_IMPORTS = ['ScalesModel.Model.Heap']
 SOURCE_CONSTANTS = {
     'Scales.Heap.Idle': ('from scales.loadbalancer.heap import HeapBalancerSink as H', 'H.Idle'),
@@ -31,10 +39,33 @@ SOURCE_SITES = [
                     '  unfold genCloseNow; rfl'),
 ]
 ASSUMPTIONS = ['channel states change only between balancer calls (gevent is cooperative)',
-               'fewer than 2^31-1 dispatches in the history (theorem hypothesis getCount ops < 2147483647, part of the reported wf)']
+               'fewer than 2^31-1 dispatches in the history (theorem hypothesis getCount ops < 2147483647, part of the reported wf)',
+               'aperture3: the hypotheses of C05/C06 (Open() first, one truthful initial load, every recorded random choice '
+               'legal) and fewer than 2^31-1 dispatches (wfH)',
+               'aperture3 judges the request of a get operation that is served at once against the aperture shown by the '
+               'previous observation; requests that waited for the open result are dispatched after the hub has run, in a '
+               'state no observation shows, and are not judged here (their forwarding is C12\'s gate clause)']
+
+
+APERTURE_COMPONENT = 'aperture3'
+RULE = ('scripts from the seeded generators: heap3 — join/leave/get/put/chan histories on the plain heap balancer plus '
+        'every get/put word up to the exhaustive length over 5 open members; aperture3 — the aperture balancer (and the '
+        'heap balancer behind the gate) with min_size >= 3, idle endpoints outside the aperture, requests kept '
+        'outstanding, faults on the root member and on busy members, bursts of dispatches after each fault, plus '
+        'general aperture dynamics; distinct = distinct (cfg, op list); non-trivial = reaches a closed channel, the '
+        'down list, an expansion/contraction, a removal or an idle completion')
+
+
+def is_lb(script):
+    return 'kind' in script
 
 
 def gen_script(rng, tier):
+    r = rng.random()
+    if r < 0.27:
+        return lbrun.gen_script(rng, tier, 3)
+    if r < 0.32:
+        return lbrun.gen_script(rng, tier, 6)
     return heaprun.gen_script(rng, tier, 3)
 
 
@@ -42,9 +73,19 @@ def exhaustive(tier, shard, shards):
     return heaprun.exhaustive(tier, shard, shards)
 
 
-shrink = heaprun.shrink
-nontrivial = heaprun.nontrivial
+def shrink(script):
+    return lbrun.shrink(script) if is_lb(script) else heaprun.shrink(script)
+
+
+def nontrivial(case):
+    if case.get('comp') == APERTURE_COMPONENT:
+        t = set(case.get('tags', []))
+        return bool(t & {'chan-closed', 'downlist', 'expand', 'adj-expand', 'adj-contract', 'removed', 'idle-put',
+                         'open-failed', 'jitter'})
+    return heaprun.nontrivial(case)
 
 
 def run_script(script):
+    if is_lb(script):
+        return lbrun.run_script(script, APERTURE_COMPONENT)
     return heaprun.run_script(script, COMPONENT)
